@@ -66,7 +66,7 @@ def correspond(ctx):
     cases, meta = [], []
     s = float(1 / np.sqrt(2))
     for D, N in ([(1, 7), (2, 4)] if ctx.quick else [(1, 7), (1, 8), (2, 4), (2, 5), (3, 3), (3, 4)]):
-        L, c, dt = 2 * np.pi * 0.75, 1.5, 0.3
+        L, c, dt = 2 * np.pi * (0.75 if (D + N) % 2 else 3.0), 1.5, 0.3
         w = ex.stepper.Wave(D, L, N, dt, speed_of_sound=c)
         u_hat = (rng.integers(-8, 9, (2,) + (N,) * (D - 1) + (N // 2 + 1,)) + 1j * rng.integers(-8, 9, (2,) + (N,) * (D - 1) + (N // 2 + 1,))) / 8.0
         out = np.asarray(w.step_fourier(jnp.asarray(u_hat)))
@@ -232,5 +232,6 @@ def witness(ctx):
                     nm = 10**6 if N**D <= 36 else 4
                     ctx.check("exact", dict(cls=cls, D=D, N=N, L=L, dt=dt, seed=ctx.seed + D, flag=flag, nmodes=nm))
             ctx.check("semigroup", dict(cls=cls, D=D, N=N, dt=0.07, n=3, seed=ctx.seed))
-        for (L, dt) in [(2.0, 0.1), (5.0, 40.0)]:
+        # domain extents on both sides of 2 pi (scaled wavenumbers 2 pi |m| / L below and above 1)
+        for (L, dt) in [(2.0, 0.1), (5.0, 40.0), (20.0, 0.7), (100.0, 3.0)] + ([(2 * np.pi, 0.3), (1e3, 10.0)] if deep else []):
             ctx.check("wave", dict(D=D, N=N, L=L, dt=dt, seed=ctx.seed))
